@@ -49,6 +49,13 @@ func SimServer(address string) *Server {
 	return simServers[address]
 }
 
+// SimReset forgets every server (start of a run: a run that was aborted leaves its servers open).
+func SimReset() {
+	simMutex.Lock()
+	defer simMutex.Unlock()
+	simServers = map[string]*Server{}
+}
+
 // Initialize initializes a Server.
 func (s *Server) Initialize() error {
 	if s.ReadTimeout == 0 {
